@@ -1,5 +1,4 @@
 """C25 — DeltaSTN decides temporal consistency exactly."""
-import itertools
 import warnings
 from fractions import Fraction
 
@@ -15,7 +14,7 @@ RULE = ("(1) `tree` cases: a prefix of insertions on one network, then EVERY can
         "appearance): quick = all prefixes of length <=2 (i.e. ALL insertion sequences of length <=3) plus a random sample "
         "of prefixes of length 3..5; thorough = all prefixes of length <=3 (ALL sequences of length <=4) plus a larger "
         "sample of length 4..6. (2) `hist` cases: random histories (30 ops quick / 200 thorough) over up to 8 live networks "
-        "with copy_stn, integer and rational (Fraction) bounds incl. huge ones, 60% of the insertions drawn from a hidden "
+        "with copy_stn, integer and rational (Fraction) bounds incl. huge ones, most of the insertions drawn from a hidden "
         "feasible schedule with tight slack (deep consistent networks), the rest arbitrary, plus re-insertions of the same "
         "pair with smaller/larger bounds (subsumption). Non-trivial = a sat network with a non-zero distance (propagation "
         "happened) or both verdicts occur in the case.")
@@ -112,9 +111,8 @@ def reference(cons):
             if e not in ev:
                 ev.append(e)
     INF = None
-    D = {u: {v: (Fraction(0) if u == v else INF) for v in ev} for u in ev}
+    D = {u: {v: (0 if u == v else INF) for v in ev} for u in ev}      # exact: Python int / Fraction only
     for x, y, b in cons:        # edge x -> y of weight b on potentials d = -t :  d(y) <= d(x) + b
-        b = Fraction(b)
         if D[x][y] is None or b < D[x][y]:
             D[x][y] = b
     for k in ev:
@@ -132,7 +130,7 @@ def reference(cons):
         return None
     out = {}
     for v in ev:
-        m = Fraction(0)
+        m = 0
         for u in ev:
             if D[u][v] is not None and D[u][v] < m:
                 m = D[u][v]
@@ -149,7 +147,7 @@ def check_net(stn, cons, where):
     if not sat:
         return None
     try:
-        m = {e: Fraction(stn.get_stn_model(e)) for e in ref}
+        m = {e: stn.get_stn_model(e) for e in ref}
     except KeyError as e:
         return f"{where}: get_stn_model raises KeyError({e}) on an inserted event"
     for x, y, b in cons:
@@ -258,9 +256,14 @@ def tree_case(seq):
 
 
 def random_prefix(rng, length):
+    """random canonical prefix, biased (80%) towards staying feasible so that deep prefixes are not all dead"""
     seq, n = [], 0
+    keep_sat = rng.random() < 0.8
     for _ in range(length):
-        e = rng.choice(extensions(n))
+        for _try in range(6):
+            e = rng.choice(extensions(n))
+            if not keep_sat or reference([(NAMES[x], NAMES[y], b) for x, y, b in seq + [e]]) is not None:
+                break
         seq.append(e)
         n = max(n, e[0] + 1, e[1] + 1)
     return seq
@@ -283,7 +286,7 @@ def hist_case(rng, nops):
     nev = rng.choice([2, 3, 4, 5, 6, 8])
     evs = NAMES[:nev]
     sched = {e: Fraction(rng.randint(0, 12), rng.choice([1, 1, 2, 3])) for e in evs}
-    p_sched = rng.choice([0.0, 0.6, 0.6, 0.9, 1.0])
+    p_sched = rng.choice([0.0, 0.6, 0.8, 0.95, 1.0, 1.0])
     p_copy = rng.choice([0.0, 0.08, 0.15])
     ops, nnets, last = [], 1, None
     for _ in range(nops):
@@ -321,11 +324,11 @@ def cases(rng, tier):
         for seq in prefixes(L):
             yield tree_case(seq)
     # sampled deeper trees
-    for L, n in ([(3, 500), (4, 250), (5, 150)] if quick else [(4, 6000), (5, 3000), (6, 1500)]):
+    for L, n in ([(3, 2000), (4, 1000), (5, 500)] if quick else [(4, 6000), (5, 3000), (6, 1500)]):
         for _ in range(n):
             yield tree_case(random_prefix(rng, L))
     # random histories with copies and rational bounds
-    nh, nops = (400, 30) if quick else (3000, 200)
+    nh, nops = (600, 30) if quick else (3000, 200)
     for _ in range(nh):
         yield hist_case(rng, rng.choice([nops // 3, nops, nops]))
 
